@@ -53,26 +53,6 @@ Mark == /\ stack # <<>> /\ Head(stack) \in Markers
 Next == Shift \/ Mark \/ \E p \in PN : Expand(p)
 Spec == Init /\ [][Next]_vars
 Done == stack = <<>>
-SpellOf == [ x \in {"do","end","while","repeat","until","if","then","elseif","else","for","in","function","local",
-                  "goto","return","break","nil","false","true","and","or","not",
-                  "&","|","^^","<<",">>",">>>","<<>",">><","\\","<",">","<=",">=","~=","!=","==","..","+","-","*","/","%","^",
-                  "#","~","@","$","=","+=","-=","*=","/=","%=","..=","(",")","{","}","[","]",";",":",",",".","..."} |->
-  CASE x = "do" -> <<100,111>> [] x = "end" -> <<101,110,100>> [] x = "while" -> <<119,104,105,108,101>>
-    [] x = "repeat" -> <<114,101,112,101,97,116>> [] x = "until" -> <<117,110,116,105,108>> [] x = "if" -> <<105,102>>
-    [] x = "then" -> <<116,104,101,110>> [] x = "elseif" -> <<101,108,115,101,105,102>> [] x = "else" -> <<101,108,115,101>>
-    [] x = "for" -> <<102,111,114>> [] x = "in" -> <<105,110>> [] x = "function" -> <<102,117,110,99,116,105,111,110>>
-    [] x = "local" -> <<108,111,99,97,108>> [] x = "goto" -> <<103,111,116,111>> [] x = "return" -> <<114,101,116,117,114,110>>
-    [] x = "break" -> <<98,114,101,97,107>> [] x = "nil" -> <<110,105,108>> [] x = "false" -> <<102,97,108,115,101>>
-    [] x = "true" -> <<116,114,117,101>> [] x = "and" -> <<97,110,100>> [] x = "or" -> <<111,114>> [] x = "not" -> <<110,111,116>>
-    [] x = "&" -> <<38>> [] x = "|" -> <<124>> [] x = "^^" -> <<94,94>> [] x = "<<" -> <<60,60>> [] x = ">>" -> <<62,62>>
-    [] x = ">>>" -> <<62,62,62>> [] x = "<<>" -> <<60,60,62>> [] x = ">><" -> <<62,62,60>> [] x = "\\" -> <<92>>
-    [] x = "<" -> <<60>> [] x = ">" -> <<62>> [] x = "<=" -> <<60,61>> [] x = ">=" -> <<62,61>> [] x = "~=" -> <<126,61>>
-    [] x = "!=" -> <<33,61>> [] x = "==" -> <<61,61>> [] x = ".." -> <<46,46>> [] x = "+" -> <<43>> [] x = "-" -> <<45>>
-    [] x = "*" -> <<42>> [] x = "/" -> <<47>> [] x = "%" -> <<37>> [] x = "^" -> <<94>> [] x = "#" -> <<35>> [] x = "~" -> <<126>>
-    [] x = "@" -> <<64>> [] x = "$" -> <<36>> [] x = "=" -> <<61>> [] x = "+=" -> <<43,61>> [] x = "-=" -> <<45,61>>
-    [] x = "*=" -> <<42,61>> [] x = "/=" -> <<47,61>> [] x = "%=" -> <<37,61>> [] x = "..=" -> <<46,46,61>>
-    [] x = "(" -> <<40>> [] x = ")" -> <<41>> [] x = "{" -> <<123>> [] x = "}" -> <<125>> [] x = "[" -> <<91>> [] x = "]" -> <<93>>
-    [] x = ";" -> <<59>> [] x = ":" -> <<58>> [] x = "," -> <<44>> [] x = "." -> <<46>> [] x = "..." -> <<46,46,46>> ]
 \* variants per class; chosen by position so that every variant meets every neighbour somewhere
 NameV == << <<97>>, <<101,49>>, <<95,120>>, <<200,98>> >>
 NumV == << <<49>>, <<49,46>>, <<46,53>>, <<48,120,49,102>>, <<50,101,51>>, <<48,98,49,46,49>> >>
